@@ -237,7 +237,8 @@ def check_call(pt, acc, case):
     nplain = sum(1 for k in kinds if k not in TXK)
     try:
         prog, sig, given = build_call(pt, case)
-        teal = pt.compileTeal(prog, pt.Mode.Application, version=case["version"])
+        # (every third call program is compiled with assembled constants: selectors, type enums and field values move into blocks)
+        teal = pt.compileTeal(prog, pt.Mode.Application, version=case["version"], assembleConstants=case["vseed"] % 3 == 0)
     except PT_ERRORS as e:
         acc.counters["build_rejected:" + type(e).__name__] += 1
         acc.extra.setdefault("rejections", [])
